@@ -82,9 +82,34 @@ def returned_objects(ctx, rule='accessor-returns-iterate-block'):
     t = sym(rs, [x for x in rs.walk() if x['k'] == 'ReturnStmt'][0]['value'])
     at = atoms(t)
     resf = [a[1] for a in at if a[0] == 'F']
-    okr = len(resf) == 1 and any(v[1][0] == 'col' and v[1][1] == ('F', resf[0]) and v[2][0] == '-' for v in vals)
+    allvals = []
+    for g in ctx.F.concrete():
+        if g.cls == 'Spectra::LOBPCGSolver' and g.cfg and not g.d.get('ctor'):
+            allvals += [sym(g, x, inline=False) for x in g.walk() if x['k'] in ('CXXOperatorCallExpr', 'BinaryOperator') and x.get('op') == '=']
+    okr = len(resf) == 1 and any(v[1][0] == 'col' and v[1][1] == ('F', resf[0]) and v[2][0] == '-' for v in allvals)
     ctx.check(okr, rule, 'LOBPCGSolver::residuals', rs.qname, 'returns the field filled with AX - BX*diag(values)' if okr else 'returns %s' % show(t))
     return X, (resf[0] if resf else None)
+
+
+def _tri(fn, n, env):
+    """three-valued evaluation of a condition under {local name: bool}: True / False / None (unknown)"""
+    n = fn.strip(n)
+    if n is None:
+        return None
+    k = n['k']
+    if k == 'CXXBoolLiteralExpr':
+        return n['val'] == 'true'
+    if k == 'DeclRefExpr':
+        return env.get(n.get('name'))
+    if k == 'UnaryOperator' and n.get('op') == '!':
+        v = _tri(fn, fn.nodes[n['c'][0]], env)
+        return None if v is None else (not v)
+    if k == 'BinaryOperator' and n.get('op') in ('&&', '||'):
+        a, b = _tri(fn, fn.nodes[n['c'][0]], env), _tri(fn, fn.nodes[n['c'][1]], env)
+        if n['op'] == '&&':
+            return False if (a is False or b is False) else True if (a is True and b is True) else None
+        return True if (a is True or b is True) else False if (a is False and b is False) else None
+    return None
 
 
 def success_discipline(ctx, X, RES, rule='success-only-after-fresh-residual-test'):
@@ -113,8 +138,64 @@ def success_discipline(ctx, X, RES, rule='success-only-after-fresh-residual-test
                 if t[1] == ('col', ('F', RES), ('L', rg[0])) and t[2][0] == '-' and t[2][1][0] == 'col' and t[2][1][2] == ('L', rg[0]) and \
                         t[2][2][0] == '*' and any(isinstance(a, tuple) and a[0] == 'col' and a[2] == ('L', rg[0]) for a in t[2][2][1:]):
                     recomputes.append((lp, x, t))
-    if len(recomputes) < 2:
-        raise AnalysisBroken('LOBPCG: residual recomputation loops not found (%d)' % len(recomputes))
+    # a member helper that contains the recomputation loop: a call of it is a recomputation iff, with the call's literal
+    # arguments, no other write of the residual field can follow the loop inside the helper; otherwise the call is a WRITER
+    helper_fresh, helper_writer = set(), set()
+    for call in comp.walk():
+        if call['k'] != 'CXXMemberCallExpr' or call.get('cls') != 'Spectra::LOBPCGSolver':
+            continue
+        hs = [g for g in ctx.F.concrete() if g.cls == 'Spectra::LOBPCGSolver' and g.name == call.get('callee') and g.cfg and g is not comp]
+        if not hs:
+            continue
+        h = hs[0]
+        mw = ctx.E.call_may_write(comp, call)
+        if not any(p_ and p_[0] in (RES, X) for p_ in mw):
+            continue
+        loops_h = []
+        for lp in h.walk():
+            if lp['k'] != 'ForStmt':
+                continue
+            rg = loop_range(h, lp)
+            if not rg or rg[1] != ('lit', '0') or rg[2][0] != 'F':
+                continue
+            for x in h.walk(lp['body']):
+                if x['k'] == 'CXXOperatorCallExpr' and x.get('op') == '=':
+                    t = sym(h, x, inline=False)
+                    if t[1] == ('col', ('F', RES), ('L', rg[0])) and t[2][0] == '-' and t[2][1][0] == 'col' and t[2][1][2] == ('L', rg[0]) and \
+                            t[2][2][0] == '*' and any(isinstance(a, tuple) and a[0] == 'col' and a[2] == ('L', rg[0]) for a in t[2][2][1:]):
+                        loops_h.append((lp, x, rg))
+        fresh = False
+        if len(loops_h) == 1:
+            lp, x, rg = loops_h[0]
+            args = comp.call_args(call)
+            env = {}
+            for i_, pid in enumerate(h.params):
+                if i_ < len(args):
+                    a = comp.strip(args[i_])
+                    if a is not None and a['k'] == 'CXXBoolLiteralExpr':
+                        env[h.locals[pid]['name']] = (a['val'] == 'true')
+            fe_h = ctx.E.of(h)
+            later = []
+            for acc in fe_h.accesses:
+                if acc.mode == 'w' and acc.path in ((RES,), (X,)):
+                    n_ = h.nodes[acc.node]
+                    if h.within(n_, lp) or n_['id'] == x['id']:
+                        continue
+                    if n_['k'] == 'CXXMemberCallExpr' and n_.get('callee') == 'resize' and n_['l'] < lp['l']:
+                        continue
+                    # infeasible under the call's literal arguments?
+                    dead = False
+                    for anc in h.ancestors(n_):
+                        if anc['k'] == 'IfStmt':
+                            v = _tri(h, h.nodes[anc['cond']], env)
+                            if (v is False and h.within(n_, anc['then'])) or (v is True and anc.get('else', -1) >= 0 and h.within(n_, anc['else'])):
+                                dead = True
+                    if not dead:
+                        later.append(n_)
+            fresh = not later
+        (helper_fresh if fresh else helper_writer).add(call['id'])
+    if len(recomputes) + len(helper_fresh) < 1:
+        raise AnalysisBroken('LOBPCG: residual recomputation not found (no loop in compute(), no helper call that leaves fresh residuals)')
     rec_ids = set(lp['id'] for lp, _, _ in recomputes)
     checks = [x for x in comp.walk() if x['k'] == 'CXXMemberCallExpr' and x.get('callee') == 'checkConvergence_getBlocksize']
     for k, s in enumerate(succ):
@@ -142,7 +223,11 @@ def success_discipline(ctx, X, RES, rule='success-only-after-fresh-residual-test
                 hit2 = paths.search(comp, [], stop=lambda n: n['id'] in gids, target=lambda n, g=guard: comp.within(n, g['cond']), include_entry=True)
                 if hit is not None or hit2 is not None:
                     problems.append('the tested block size does not always come from the convergence test')
-                for d in good:
+                def reaches(d):
+                    others = set(o['id'] for o in defs if o['id'] != d['id'])
+                    return paths.search(comp, [comp.pos_of(d)], stop=lambda n: n['id'] in others,
+                                        target=lambda n, g=guard: comp.within(n, g['cond'])) is not None
+                for d in [d for d in good if reaches(d)]:
                     call = [c2 for c2 in checks if comp.within(c2, d)][0]
                     a0 = sym(comp, comp.call_args(call)[0], inline=False)
                     if a0 != ('F', RES):
@@ -155,7 +240,8 @@ def success_discipline(ctx, X, RES, rule='success-only-after-fresh-residual-test
                             n = comp.nodes[acc.node]
                             if not any(comp.within(n, lp) for lp, _, _ in recomputes) and not comp.within(n, call):
                                 writers.add(acc.node)
-                    rec_assign = set(x['id'] for _, x, _ in recomputes)
+                    writers |= helper_writer
+                    rec_assign = set(x['id'] for _, x, _ in recomputes) | helper_fresh
                     # a resize of the residual field to (n, k) followed by the loop over [0, k) rewrites every column: the resize
                     # itself is the point after which nothing stale survives (also when k = 0 and the loop body never runs)
                     for x in comp.walk():
